@@ -233,6 +233,8 @@ def run_case(case):
                     msg = lo.transpose_and_check(h, G, a, b, wb, dtype=dtype, bufs=bufs)
                     k = sum(1 for t in w.trace[rank][t0:] if t[2].lower().startswith("alltoall"))
                     out["n"] += 1
+                    if k == 0 and wb:
+                        out.setdefault("local_pairs", []).append((a, b))
                     if k > 1:
                         out["redirect"] += 1
                     kind = "same" if a == b else ("local" if k == 0 else ("alltoall1" if k == 1 else ("redirect" if k < 4 else "redirect4+")))
@@ -243,6 +245,26 @@ def run_case(case):
                         out["bad"].append("%s->%s %s (%d Alltoall): %s" % (a, b, "with buffer" if wb else "no buffer", k, msg))
                         if len(out["bad"]) > 3:
                             return out
+        # pairs that need no communication (same layout, or a purely local re-ordering) accept any 1-D arrays: hand over two
+        # INTERLEAVED strided views of one block (columns of an (n,2) array; real and imaginary part of one complex block do the same)
+        for (a, b) in out.get("local_pairs", [])[:8]:
+            for wb in ((False, True) if a == b else (True,)):      # the in-place variant of a local re-ordering asserts that it was given whole arrays
+                La_, Lb_ = h.getLayout(a), h.getLayout(b)
+                blk = np.full((h.bufferSize, 2), lo.sentinel(dtype), dtype=lo.np_dtype(dtype))
+                src_, dst_ = blk[:, 0], blk[:, 1]
+                src_[:La_.size] = lo.expected_block(G, La_).reshape(-1)
+                keep_ = src_.copy()
+                spare_ = np.full(h.bufferSize, lo.sentinel(dtype), dtype=lo.np_dtype(dtype))
+                h.transpose(src_, dst_, a, b, spare_ if wb else None)
+                out["n"] += 1
+                out["strided"] = out.get("strided", 0) + 1
+                out["cls"].add("%s/local-strided-views/%s" % (base, "buf" if wb else "nobuf"))
+                if not lo.bits_equal(np.array(dst_[:Lb_.size]).reshape(Lb_.shape), lo.expected_block(G, Lb_)):
+                    out["bad"].append("%s->%s %s with source and destination given as interleaved strided views of one block: destination does not hold the field" % (a, b, "with buffer" if wb else "no buffer"))
+                    return out
+                if wb and not lo.bits_equal(src_, keep_):
+                    out["bad"].append("%s->%s with buffer (strided views): source modified" % (a, b))
+                    return out
         # random walk re-using three buffers without clearing them in between
         rng = random.Random(walk_rng_seed)
         X, Y, Z = [np.full(h.bufferSize, lo.sentinel(dtype), dtype=lo.np_dtype(dtype)) for _ in range(3)]
@@ -291,6 +313,7 @@ def run_case(case):
     ev["transposes_compared"] = sum(r["n"] for r in res)
     ev["redirect_transposes"] = sum(r["redirect"] for r in res)
     ev["transposes_with_4_or_more_exchanges"] = sum(r.get("long", 0) for r in res)
+    ev["local_transposes_on_strided_views"] = sum(r.get("strided", 0) for r in res)
     if w.unmatched():
         bad.append("unmatched collectives left at exit: %r" % (w.unmatched()[:3],))
     if bad:
